@@ -78,6 +78,10 @@ static int mem_tok(struct instr *instr_buffer, char *mem, int opd_pos) {
     if (neg)
       instr_buffer->mem_offset = process_neg_disp(instr_buffer->mem_offset);
   } else if (index_const != NA) {
+    // [constant] stands alone: a register after the constant is not a
+    // supported syntax (and would add a second displacement to the encoding)
+    FAIL_IF_MSG(instr_buffer->opd[opd_pos].sib[0] != '\0',
+                "invalid memory syntax\n");
     instr_buffer->mem_value = true;
     instr_buffer->mem_const = strtoul(mem + index_const, NULL, base);
     // if displacement is negative represent in 2's complement
